@@ -31,13 +31,14 @@ import (
 // C18 — thermal-writer stores every frame once, in order, in well-formed CPTR files.
 
 type c18Case struct {
-	InFlight int   `json:"in_flight"`   // size of the buffer pool (the constant inFlight, scaled)
-	Frames   int   `json:"frames"`      // complete frames sent
-	Tail     int   `json:"tail_bytes"`  // trailing partial frame
+	InFlight int   `json:"in_flight"`     // size of the buffer pool (the constant inFlight, scaled)
+	Frames   int   `json:"frames"`        // complete frames sent
+	Tail     int   `json:"tail_bytes"`    // trailing partial frame
 	Cut      int   `json:"short_read_at"` // a read never crosses this stream offset (0 = none)
 	Bound    int   `json:"bound,omitempty"`
 	Timers   int   `json:"timer_fires"`
-	Choices  []int `json:"choices,omitempty"` // schedule (replay)
+	Second   int   `json:"second_connection_frame_size,omitempty"` // >0: the camera reconnects (same process) with this frame size and sends Frames frames again
+	Choices  []int `json:"choices,omitempty"`                      // schedule (replay)
 }
 
 type c18Conn struct {
@@ -71,16 +72,23 @@ func (c *c18Conn) SetWriteDeadline(t time.Time) error { return nil }
 
 const c18FrameSize = 8
 
-func c18Header() []byte {
-	specs := map[string]interface{}{headers.XResolution: 2, headers.YResolution: 2, headers.FrameSize: c18FrameSize, headers.Model: "lepton3", headers.Brand: "flir", headers.FPS: 9, headers.Serial: 1, headers.Firmware: "1.0.0"}
+func c18Header() []byte { return c18HeaderN(c18FrameSize) }
+
+func c18HeaderN(size int) []byte {
+	specs := map[string]interface{}{headers.XResolution: 2, headers.YResolution: 2, headers.FrameSize: size, headers.Model: "lepton3", headers.Brand: "flir", headers.FPS: 9, headers.Serial: 1, headers.Firmware: "1.0.0"}
 	b, _ := yamlv1.Marshal(specs)
 	return append(b, '\n')
 }
 
-func c18Frame(i int) []byte {
-	f := make([]byte, c18FrameSize)
+func c18Frame(i int) []byte { return c18FrameN(i, c18FrameSize) }
+
+func c18FrameN(i, size int) []byte {
+	f := make([]byte, size)
 	binary.BigEndian.PutUint32(f, uint32(0xF0000000+i))
 	binary.BigEndian.PutUint32(f[4:], uint32(i*2654435761))
+	for k := 8; k < size; k++ {
+		f[k] = byte(i + k)
+	}
 	return f
 }
 
@@ -159,8 +167,10 @@ func imin(a, b int) int {
 }
 
 type c18Obs struct {
-	dir     string
-	connErr error
+	dir      string
+	connErr  error
+	dir2     string
+	connErr2 error
 }
 
 // c18Body is what runs under the scheduler: the real handleConn (which starts the real writer).
@@ -179,6 +189,21 @@ func c18Body(c c18Case, obs *c18Obs) func() {
 		data = append(data, c18Frame(9999)[:c.Tail]...)
 		conf := &Config{DeviceID: 77, DeviceName: "c18-device", OutputDir: dir}
 		obs.connErr = handleConn(&c18Conn{data: data, cut: c.Cut}, conf, false)
+		if c.Second > 0 && obs.connErr == io.EOF {
+			// the camera reconnects to the same process (runMain loops over handleConn); the output goes to a
+			// second directory so that the two connections' files can be told apart
+			dir2, err := os.MkdirTemp("", "c18b-")
+			if err != nil {
+				panic(err)
+			}
+			obs.dir2 = dir2
+			d2 := c18HeaderN(c.Second)
+			for i := 1; i <= c.Frames; i++ {
+				d2 = append(d2, c18FrameN(100+i, c.Second)...)
+			}
+			vsched.Advance(2 * time.Second) // file names have one-second resolution
+			obs.connErr2 = handleConn(&c18Conn{data: d2}, &Config{DeviceID: 77, DeviceName: "c18-device", OutputDir: dir2}, false)
+		}
 	}
 }
 
@@ -222,6 +247,30 @@ func c18Check(c c18Case, e *vsched.Exec, obs *c18Obs) (string, string) {
 	for i, fr := range all {
 		if !bytes.Equal(fr, c18Frame(i+1)) {
 			return "C18:frame-content-or-order", fmt.Sprintf("stored frame %d is % x, received % x", i+1, fr, c18Frame(i+1))
+		}
+	}
+	if c.Second > 0 {
+		defer os.RemoveAll(obs.dir2)
+		if obs.connErr2 != io.EOF {
+			return "C18:connection-end", fmt.Sprintf("second connection: handleConn returned %v", obs.connErr2)
+		}
+		files2, _ := filepath.Glob(filepath.Join(obs.dir2, "*.cptr"))
+		sort.Strings(files2)
+		var all2 [][]byte
+		for _, f := range files2 {
+			fr, err := parseCPTR(f)
+			if err != nil {
+				return "C18:malformed-file", fmt.Sprintf("second connection (frame size %d after a connection with frame size %d): %s: %v", c.Second, c18FrameSize, filepath.Base(f), err)
+			}
+			all2 = append(all2, fr...)
+		}
+		if len(all2) != c.Frames {
+			return "C18:frame-count", fmt.Sprintf("second connection: %d frames stored, %d received", len(all2), c.Frames)
+		}
+		for i, fr := range all2 {
+			if !bytes.Equal(fr, c18FrameN(101+i, c.Second)) {
+				return "C18:frame-content-or-order", fmt.Sprintf("second connection: stored frame %d is % x, received % x", i+1, fr, c18FrameN(101+i, c.Second))
+			}
 		}
 	}
 	return "", ""
@@ -280,6 +329,8 @@ func TestVerifC18(t *testing.T) {
 	if r.Thorough() {
 		bound = 3
 	}
+	// reconnects within one process, with other frame sizes (all frame sizes are in the quantifier)
+	scens = append(scens, scen{c18Case{InFlight: 2, Frames: 2, Second: 12, Timers: 0}, 1}, scen{c18Case{InFlight: 2, Frames: 3, Second: 8, Timers: 0}, 1}, scen{c18Case{InFlight: 1, Frames: 2, Second: 20, Timers: 1}, bound})
 	for _, n := range []int{1, 2, 3} {
 		maxF := 2*n + 2
 		if !r.Thorough() && n == 3 {
@@ -296,7 +347,8 @@ func TestVerifC18(t *testing.T) {
 		scens = append(scens, scen{c18Case{InFlight: n, Frames: n + 1, Cut: len(c18Header()) + c18FrameSize + 3, Timers: 1}, bound})
 	}
 	scens = append(scens, scen{c18Case{InFlight: 256, Frames: 258, Timers: 0}, 1})
-	r.SetDeadline(map[bool]time.Duration{false: 100 * time.Second, true: 40 * time.Minute}[r.Thorough()])
+
+	r.SetDeadline(map[bool]time.Duration{false: 150 * time.Second, true: 40 * time.Minute}[r.Thorough()])
 	per := map[string]interface{}{}
 	for _, sc := range scens {
 		c := sc.c
@@ -329,7 +381,7 @@ func TestVerifC18(t *testing.T) {
 			}
 		}
 		x.Explore()
-		per[fmt.Sprintf("inflight=%d frames=%d tail=%d cut=%d", c.InFlight, c.Frames, c.Tail, c.Cut)] = map[string]interface{}{"bound": sc.bound, "executions": x.Executions, "max_points": x.MaxPoints, "complete": !x.Capped}
+		per[fmt.Sprintf("inflight=%d frames=%d tail=%d cut=%d second=%d", c.InFlight, c.Frames, c.Tail, c.Cut, c.Second)] = map[string]interface{}{"bound": sc.bound, "executions": x.Executions, "max_points": x.MaxPoints, "complete": !x.Capped}
 		if x.Capped {
 			r.MarkCapped()
 		}
@@ -339,7 +391,7 @@ func TestVerifC18(t *testing.T) {
 	}
 	r.Extra["scenarios"] = per
 	r.Bounds["preemption_bound"] = bound
-	r.Rule = "the real handleConn of thermal-writer (which starts the real writer goroutine) on an in-memory connection, under the cooperative scheduler: instrumented copies of main.go/thermalraw.go/bufferedfile.go (channel operations, goroutine start, select, one-minute rotation timer, clock are scheduling points; the Go select's random pick and the timer are explored choices); buffer pool size inFlight scaled to 1,2,3 with 0..2N+2 frames, a trailing partial frame, a short read, and inFlight=256 with 258 frames at bound 1; every interleaving with at most the stated number of deviations (preemptions + timer fires). Oracle: all *.cptr parse (magic, version, header fields, only length-prefixed frame sections, no trailing bytes), concatenated payloads = frames sent, no deadlock/panic, and no pair of frame-buffer accesses (io.ReadFull fill vs writeFrame) unordered by channel happens-before. Non-trivial = every execution."
+	r.Rule = "the real handleConn of thermal-writer (which starts the real writer goroutine) on an in-memory connection, under the cooperative scheduler: instrumented copies of main.go/thermalraw.go/bufferedfile.go (channel operations, goroutine start, select, one-minute rotation timer, clock are scheduling points; the Go select's random pick and the timer are explored choices); buffer pool size inFlight scaled to 1,2,3 with 0..2N+2 frames, a trailing partial frame, a short read, inFlight=256 with 258 frames at bound 1, and the camera reconnecting within the same process with another frame size; every interleaving with at most the stated number of deviations (preemptions + timer fires). Oracle: all *.cptr parse (magic, version, header fields, only length-prefixed frame sections, no trailing bytes), concatenated payloads = frames sent, no deadlock/panic, and no pair of frame-buffer accesses (io.ReadFull fill vs writeFrame) unordered by channel happens-before. Non-trivial = every execution."
 	r.Assumptions = []string{"sequentially consistent interleavings at synchronisation granularity + happens-before race check on the frame buffers (a race-free Go program is SC)", "bufio buffer scaled from 32 MiB to 64 KiB, inFlight scaled through a run-time parameter (both by the syntactic instrumenter)"}
 	code := r.Finish()
 	if code != 0 {
